@@ -396,6 +396,7 @@ func instrIndex(ins ssa.Instruction) int {
 
 // instrDominates reports whether a is executed on every path reaching b.
 func instrDominates(a, b ssa.Instruction) bool {
+	a, b = liftToCommon(a, b)
 	if a.Block() == b.Block() {
 		return instrIndex(a) < instrIndex(b)
 	}
@@ -574,6 +575,14 @@ func posLine(ins ssa.Instruction) string {
 
 // reaches reports whether some path leads from just after a to b.
 func reaches(a, b ssa.Instruction) bool {
+	if a.Parent() != b.Parent() {
+		la, lb := liftToCommon(a, b)
+		if la == lb && la != nil && a != b {
+			// both inside the same walked-in helper call: decide inside the helper when they share it
+			return false
+		}
+		a, b = la, lb
+	}
 	if a.Block() == b.Block() && instrIndex(a) < instrIndex(b) {
 		return true
 	}
@@ -678,6 +687,13 @@ func describeShallow(v ssa.Value, d func(ssa.Value) string) string {
 		}
 		if t, ok := paramAlias[x]; ok {
 			return t // a method used as a method value, read like the function literal it replaces
+		}
+		if a := soleCallArg(x); a != nil && len(describeDepthGuard) < 4 {
+			// a helper split out of one place: its parameter is the argument it is given there
+			describeDepthGuard = append(describeDepthGuard, x.Parent())
+			t := describe(a)
+			describeDepthGuard = describeDepthGuard[:len(describeDepthGuard)-1]
+			return t
 		}
 		for i, p := range x.Parent().Params {
 			if p == x {
@@ -1042,9 +1058,26 @@ func dependsOn(v ssa.Value, pred func(ssa.Value) bool) bool {
 			}
 			return false
 		}
+		if prm, ok := v.(*ssa.Parameter); ok {
+			if a, ok := resolveParam(prm); ok {
+				return walk(a) // parameter of a helper walked in place / split out of one place
+			}
+		}
 		ins, ok := v.(ssa.Instruction)
 		if !ok {
 			return false
+		}
+		if c, ok := v.(*ssa.Call); ok {
+			// a helper that is new with respect to the reference tree: its result depends on what it returns
+			if g := staticCallee(c.Common()); g != nil && isNewHelper(g) {
+				for i := 0; i < g.Signature.Results().Len(); i++ {
+					for _, rv := range returnValues(g, i) {
+						if walk(rv) {
+							return true
+						}
+					}
+				}
+			}
 		}
 		for _, op := range ins.Operands(nil) {
 			if *op != nil && walk(*op) {
@@ -1189,8 +1222,54 @@ func resolveParam(p *ssa.Parameter) (ssa.Value, bool) {
 			return v, true
 		}
 	}
+	if a := soleCallArg(p); a != nil {
+		return a, true
+	}
 	return nil, false
 }
+
+// soleCallArg: p is a parameter of a helper that is new with respect to the reference tree and is called
+// from exactly one place in the module: the argument passed there.
+func soleCallArg(p *ssa.Parameter) ssa.Value {
+	g := p.Parent()
+	if !isNewHelper(g) || curProgram == nil {
+		return nil
+	}
+	site, ok := soleSite[g]
+	if !ok {
+		var sites []ssa.CallInstruction
+		for f := range curProgram.AllFuncs {
+			if !inModule(f) {
+				continue
+			}
+			for _, b := range f.Blocks {
+				for _, ins := range b.Instrs {
+					if c, ok := ins.(ssa.CallInstruction); ok && staticCallee(c.Common()) == g {
+						sites = append(sites, c)
+					}
+				}
+			}
+		}
+		if len(sites) == 1 {
+			site = sites[0]
+		}
+		soleSite[g] = site
+	}
+	if site == nil {
+		return nil
+	}
+	for i, q := range g.Params {
+		if q == p && i < len(site.Common().Args) {
+			return site.Common().Args[i]
+		}
+	}
+	return nil
+}
+
+var (
+	soleSite   = map[*ssa.Function]ssa.CallInstruction{}
+	curProgram *Program
+)
 
 // siteOf: the instruction of the function being scanned that stands for ins - ins itself, or, while a new
 // helper is walked in place, the outermost call that led into it.
@@ -1323,10 +1402,18 @@ func boundFieldTerm(base ssa.Value, field int) (string, bool) {
 		return "", false
 	}
 	mc, ok := boundSite[recv.Parent()]
-	if !ok {
+	if !ok || carrierOf(mc) == nil {
 		return "", false
 	}
-	// the carrier: the bound receiver is (a load of) a local struct
+	// the literal this method replaces would have captured that value: it reads as captured variable #field
+	return fmt.Sprintf("^%d", field), true
+}
+
+// carrierOf: the local struct a method value is bound to, when the receiver is a struct built right there.
+func carrierOf(mc *ssa.MakeClosure) *ssa.Alloc {
+	if len(mc.Bindings) != 1 {
+		return nil
+	}
 	var carrier *ssa.Alloc
 	switch v := mc.Bindings[0].(type) {
 	case *ssa.Alloc:
@@ -1347,26 +1434,49 @@ func boundFieldTerm(base ssa.Value, field int) (string, bool) {
 		carrier = a
 	}
 	if carrier == nil || carrier.Referrers() == nil {
-		return "", false
+		return nil
 	}
-	var val ssa.Value
-	n := 0
+	p, ok := carrier.Type().Underlying().(*types.Pointer)
+	if !ok {
+		return nil
+	}
+	if _, ok := p.Elem().Underlying().(*types.Struct); !ok {
+		return nil
+	}
+	// only field stores and loads: a struct that exists to carry the captured values
+	for _, ref := range *carrier.Referrers() {
+		switch ref.(type) {
+		case *ssa.FieldAddr, *ssa.UnOp, *ssa.DebugRef, *ssa.MakeClosure, *ssa.Store:
+		default:
+			return nil
+		}
+	}
+	return carrier
+}
+
+// carrierBindings: what the carrier's fields hold, by field index, in the building function's terms.
+func carrierBindings(mc *ssa.MakeClosure) []string {
+	carrier := carrierOf(mc)
+	if carrier == nil {
+		return nil
+	}
+	st := carrier.Type().Underlying().(*types.Pointer).Elem().Underlying().(*types.Struct)
+	out := make([]string, st.NumFields())
+	for i := range out {
+		out[i] = "<zero>"
+	}
 	for _, ref := range *carrier.Referrers() {
 		fa, ok := ref.(*ssa.FieldAddr)
-		if !ok || fa.Field != field || fa.Referrers() == nil {
+		if !ok || fa.Referrers() == nil {
 			continue
 		}
 		for _, rr := range *fa.Referrers() {
-			if st, ok := rr.(*ssa.Store); ok && st.Addr == fa {
-				val = st.Val
-				n++
+			if sv, ok := rr.(*ssa.Store); ok && sv.Addr == fa && fa.Field < len(out) {
+				out[fa.Field] = describe(sv.Val)
 			}
 		}
 	}
-	if n != 1 {
-		return "", false
-	}
-	return describe(val), true
+	return out
 }
 
 // wholeStore: the only value stored into the local as a whole (stores through field addresses do not count).
@@ -1399,4 +1509,73 @@ func refFieldName(v *types.Var) string {
 		return old
 	}
 	return v.Name()
+}
+
+// soleCallSite: the only static call of a helper that is new with respect to the reference tree (or nil).
+func soleCallSite(g *ssa.Function) ssa.CallInstruction {
+	for g != nil && g.Parent() != nil {
+		g = g.Parent()
+	}
+	if g == nil || !isNewHelper(g) || len(g.Params) == 0 && g.Signature.Recv() == nil {
+		if g == nil || !isNewHelper(g) {
+			return nil
+		}
+	}
+	if len(g.Params) > 0 {
+		soleCallArg(g.Params[0]) // fills the cache
+		return soleSite[g]
+	}
+	if site, ok := soleSite[g]; ok {
+		return site
+	}
+	var sites []ssa.CallInstruction
+	if curProgram != nil {
+		for f := range curProgram.AllFuncs {
+			if !inModule(f) {
+				continue
+			}
+			for _, b := range f.Blocks {
+				for _, ins := range b.Instrs {
+					if c, ok := ins.(ssa.CallInstruction); ok && staticCallee(c.Common()) == g {
+						sites = append(sites, c)
+					}
+				}
+			}
+		}
+	}
+	var site ssa.CallInstruction
+	if len(sites) == 1 {
+		site = sites[0]
+	}
+	soleSite[g] = site
+	return site
+}
+
+// liftToCommon: when a and b stand in different functions because one of them was moved into a helper that
+// has a single call site, the call site stands for it - order and dominance are then decided in one function.
+func liftToCommon(a, b ssa.Instruction) (ssa.Instruction, ssa.Instruction) {
+	if a == nil || b == nil || a.Parent() == b.Parent() || !haveReference {
+		return a, b
+	}
+	chain := func(x ssa.Instruction) []ssa.Instruction {
+		out := []ssa.Instruction{x}
+		for i := 0; i < 4; i++ {
+			s := soleCallSite(x.Parent())
+			if s == nil {
+				break
+			}
+			x = s
+			out = append(out, x)
+		}
+		return out
+	}
+	ca, cb := chain(a), chain(b)
+	for _, x := range ca {
+		for _, y := range cb {
+			if x.Parent() == y.Parent() {
+				return x, y
+			}
+		}
+	}
+	return a, b
 }
